@@ -455,6 +455,8 @@ class Abs:
             return ("listm", attr, base)
         if isinstance(base, str) and attr in ("strip", "lower", "upper", "split", "format", "join", "startswith", "endswith", "replace"):
             return ("strm", attr, base)
+        if isinstance(base, tuple) and base and base[0] in ("closure", "lambda", "func", "py") and attr == "__get__":
+            return ("py", lambda obj, *a: ("boundclosure", base, obj))      # a function bound to an instance
         if isinstance(base, tuple) and attr in ("index", "count"):
             return ("listm", attr, list(base))
         if isinstance(base, Tok):
@@ -575,7 +577,7 @@ class Abs:
                 args[0].attrs[args[1]] = args[2]
             return None
         if dn == "callable":
-            return isinstance(args[0], tuple) and bool(args[0]) and args[0][0] in ("callable", "lambda", "bound", "sampler", "py", "func", "imeth", "closure", "method")
+            return isinstance(args[0], tuple) and bool(args[0]) and args[0][0] in ("callable", "lambda", "bound", "sampler", "py", "func", "imeth", "closure", "method", "boundclosure")
         if dn == "print":
             return None
         if dn in ("int", "float"):
@@ -650,6 +652,8 @@ class Abs:
                 fi, kind = self._real_member(self.self_obj.cls, f[1])
                 if fi is not None and kind == "method":
                     return self._inline(fi, self.self_obj, args, kw)
+            if tag == "boundclosure":
+                return self.apply(f[1], [f[2]] + list(args), kw)
             if tag == "func":
                 return self._inline(f[1], None, args, kw)
             if tag == "imeth":
